@@ -147,7 +147,7 @@ theorem C05_purge_listeners (evs : List Event) (order : List Nat → List Nat) (
         round2 := (notifyRound (order (notifyRound (order ls) react1).live) react2).called,
         err := (notifyRound (order (notifyRound (order ls) react1).live) react2).err, notify := false } := by
     unfold deliverPurge deliverPurgeWith
-    rw [hc]
+    rw [purge_expire_now_eq, hc]
     simp only [updates_iterates_copy_eq, complete_iterates_copy_eq, remove_listener_catches_keyerror_eq, hdef, bind, Except.bind,
       notifyRound_ok, pure, Except.pure]
   exact ⟨_, reported, hd, hc, rfl, notifyRound_called _ _, notifyRound_called _ _, notifyRound_ok _ _, rfl⟩
